@@ -347,6 +347,17 @@ pub open spec fn buy_unit(amount: real, price: real, fees: real, offset: real) -
 
 
 // ---------- 30-day rule ----------
+pub open spec fn offset_at(s: Seq<Decimal>, k: int) -> real { if 0 <= k < s.len() { s[k].v() } else { 0real } }
+/// C01.bnb_cost / C03.lot_unit: leg j of a look-ahead is costed at the matched purchase's own unit cost
+/// (its quantity, price, fees and capital-return offset), for the quantity expressed in the purchase's units
+pub open spec fn bnb_leg_cost_ok(m: MatchResult, qb: real, k: int, txs: Seq<GbpTransaction>, offsets: Seq<Decimal>, sell_idx: int) -> bool {
+    &&& sell_idx < k < txs.len()
+    &&& txs[k].operation is Buy
+    &&& txs[k].ticker@ == txs[sell_idx].ticker@
+    &&& m.match_detail.acquisition_date == Some(txs[k].date)
+    &&& qb >= 0real
+    &&& m.match_detail.allowable_cost.v() == qb * buy_unit(buy_qty(txs[k]), txs[k].operation->Buy_price.v(), txs[k].operation->Buy_fees.v(), offset_at(offsets, k))
+}
 pub open spec fn ratios_ok(txs: Seq<GbpTransaction>) -> bool {
     forall|i: int| 0 <= i < txs.len() ==> (((#[trigger] txs[i]).operation is Split ==> txs[i].operation->Split_ratio.v() > 0real)
         && (txs[i].operation is Unsplit ==> txs[i].operation->Unsplit_ratio.v() >= 0real))
